@@ -31,13 +31,14 @@ RULE = ("Hypothesis-generated (a) delegation sets: 1..5 ids on one element, Sing
 ASSUMPTIONS = [
     "pool ids differ from the reserved single-pool name '_' (ABCPropertyGraphConstants.SINGLE_POOL_NAME)",
     "details are non-empty (>= 1 non-zero capacity field / >= 1 label field): the encoder asserts that",
-    "a SinglePool delegation carries no pool name (the encoder does not write one)",
+    "the pool name of a SinglePool delegation is not content (the encoder does not write one); a stray one handed to "
+    "the constructor is generated now and then and ignored in the comparison",
     "a pool has >= 1 reference node other than its defining node (validate_pool demands it)",
     "single_delegation copies from nodes, their components, component interfaces, node-level network services and "
     "their interfaces, skipping elements flagged stitch_node (as its code documents); links carry no capacities here",
     "'rejected' is checked as raised / not raised; the exception class is not compared",
 ]
-BUDGET = {"quick": 25000, "thorough": 800000}
+BUDGET = {"quick": 25000, "thorough": 250000}
 MIN_LABEL_FRACTION = {"set": 0.25, "set:3-formats": 0.05, "pools": 0.2, "pools:meet-on-node": 0.05,
                       "pools:shared-did": 0.03, "pools:single-listed-first": 0.02, "pools:conflict": 0.005, "model:single": 0.05,
                       "model:annotate": 0.05, "model:overlap-reject": 0.01, "model:with-pool": 0.04}
@@ -124,7 +125,9 @@ def _del_list(draw, atype, ids=None, max_n=5):
     out = []
     for i in ids:
         fmt = draw(st.sampled_from(["single", "def", "ref", "def", "ref"]))
-        out.append({"id": i, "fmt": fmt, "pool": None if fmt == "single" else draw(_POOLTXT),
+        # (the constructor takes a pool id for every format: now and then a single-resource entry carries a stray one)
+        stray = fmt == "single" and draw(st.integers(0, 3)) == 0
+        out.append({"id": i, "fmt": fmt, "pool": None if (fmt == "single" and not stray) else draw(_POOLTXT),
                     "details": None if fmt == "ref" else draw(_details(atype))})
     return out
 
@@ -312,7 +315,7 @@ _FMT = {"single": "SinglePool", "def": "PoolDefinition", "ref": "PoolReference"}
 
 
 def _exp_entry(atype, e):
-    return (_FMT[e["fmt"]], e["pool"], _exp_details(atype, e["details"]))
+    return (_FMT[e["fmt"]], None if e["fmt"] == "single" else e["pool"], _exp_details(atype, e["details"]))
 
 
 def _norm_delegations(ds):
@@ -321,7 +324,10 @@ def _norm_delegations(ds):
         return None
     out = {}
     for d in ds.get_delegations_as_list():
-        out[d.get_delegation_id()] = (d.get_format().name, d.get_pool_name(), _norm_details(d.get_details()))
+        # (a single-resource delegation has no pool: whatever stray pool name it was constructed with is not content)
+        out[d.get_delegation_id()] = (d.get_format().name,
+                                      None if d.get_format().name == "SinglePool" else d.get_pool_name(),
+                                      _norm_details(d.get_details()))
     if set(out) != set(ds.get_delegation_ids()) or len(out) != len(ds.get_delegations_as_list()):
         out["<ids-disagree>"] = (sorted(map(str, ds.get_delegation_ids())),)
     for i in list(out):
